@@ -352,5 +352,103 @@ pub fn run(tier: Tier, seed: u64) -> i32 {
     report.space(&format!("{} session keys; all four halves; client-encrypter<->server-decrypter and server-encrypter<->client-decrypter round trip at every explored offset", keys.len()));
     report.space("chunking: all 512 compositions (with/without empty calls) of a 10-byte stream at start offsets {0, 250..262, 1020..1030, 65530..65542 (thorough)} for all four halves, object equality (256-byte permutation + counters) with the byte-wise run; call sizes {0..6,255,256,257,1024,65535,65536,65537}");
     report.assume("depth-bounded: nothing is claimed beyond the explored stream depth or for session keys outside the alphabet");
+    // ---- the header entry points consume the same two keystreams: a long walk of headers through every entry point ----
+    // (typed, two-step, reader whole / one byte per call, writers), alternating 4- and 5-byte server headers so that the
+    // single-byte step of a large header lands on every keystream position modulo 256
+    {
+        use std::io::Cursor;
+        use wow_srp::wrath_header::WrathServerAttempt;
+        struct OneByOne<'a>(&'a [u8], usize);
+        impl std::io::Read for OneByOne<'_> {
+            fn read(&mut self, buf: &mut [u8]) -> std::io::Result<usize> {
+                if buf.is_empty() || self.1 >= self.0.len() {
+                    return Ok(0);
+                }
+                buf[0] = self.0[self.1];
+                self.1 += 1;
+                Ok(1)
+            }
+        }
+        struct Trickle(Vec<u8>);
+        impl std::io::Write for Trickle {
+            fn write(&mut self, b: &[u8]) -> std::io::Result<usize> {
+                if b.is_empty() {
+                    return Ok(0);
+                }
+                self.0.push(b[0]);
+                Ok(1)
+            }
+            fn flush(&mut self) -> std::io::Result<()> {
+                Ok(())
+            }
+        }
+        let n_headers = tier.pick(1600usize, 20_000usize);
+        let walked = AtomicU64::new(0);
+        keys.par_iter().take(tier.pick(4, 16)).for_each(|key| {
+            let (mut ce, mut cd) = ciphers::wrath_client(key).split();
+            let (mut se, mut sd) = ciphers::wrath_server(key).split();
+            let mut r_c2s = wrath_stream(key, Dir::ClientToServer);
+            let mut r_s2c = wrath_stream(key, Dir::ServerToClient);
+            for i in 0..n_headers {
+                // server -> client
+                let size: u32 = if i % 3 == 1 { 0x8000 + (i as u32 * 7919) % 0x7F_0000 } else { (i as u32 * 31) % 0x8000 };
+                let opcode: u16 = (i as u16).wrapping_mul(257);
+                let mut want = refmodel::cipher::wrath_server_header_plain(size, opcode);
+                r_s2c.apply(&mut want);
+                let wire = match i % 2 {
+                    0 => mc::util::catch(|| se.encrypt_server_header(size, opcode).to_vec()),
+                    _ => mc::util::catch(|| { let mut t = Trickle(vec![]); se.write_encrypted_server_header(&mut t, size, opcode).map(|_| t.0) }.unwrap_or_default()),
+                };
+                if wire.as_ref().ok() != Some(&want) {
+                    viol(&report, "header-walk", "server-header-bytes", key, json!({"header_index": i, "size": size, "opcode": opcode}), format!("server header #{i} (size {size:#x}, opcode {opcode:#x}) goes out as {:?}, the keystream over the documented layout gives {}", wire.map(|w| hex(&w)), hex(&want)));
+                    return;
+                }
+                let got = mc::util::catch(|| match i % 4 {
+                    0 | 1 => match cd.attempt_decrypt_server_header([want[0], want[1], want[2], want[3]]) {
+                        WrathServerAttempt::Header(h) => Some((h.size, h.opcode)),
+                        WrathServerAttempt::AdditionalByteRequired => {
+                            if want.len() == 5 {
+                                let h = cd.decrypt_large_server_header(want[4]);
+                                Some((h.size, h.opcode))
+                            } else {
+                                None
+                            }
+                        }
+                    },
+                    2 => cd.read_and_decrypt_server_header(Cursor::new(&want[..])).ok().map(|h| (h.size, h.opcode)),
+                    _ => cd.read_and_decrypt_server_header(OneByOne(&want[..], 0)).ok().map(|h| (h.size, h.opcode)),
+                });
+                if got != Ok(Some((size, opcode))) {
+                    viol(&report, "header-walk", "server-header-decode", key, json!({"header_index": i, "size": size, "opcode": opcode, "entry_point": i % 4}), format!("server header #{i} (size {size:#x}, opcode {opcode:#x}, {} bytes) decodes as {got:?}", want.len()));
+                    return;
+                }
+                // client -> server
+                let csize: u16 = (i as u16).wrapping_mul(40_503);
+                let cop: u32 = (i as u32).wrapping_mul(2_654_435_761);
+                let mut cwant = refmodel::cipher::client_header_plain(csize, cop).to_vec();
+                r_c2s.apply(&mut cwant);
+                let cwire = match i % 2 {
+                    1 => mc::util::catch(|| ce.encrypt_client_header(csize, cop).to_vec()),
+                    _ => mc::util::catch(|| { let mut t = Trickle(vec![]); ce.write_encrypted_client_header(&mut t, csize, cop).map(|_| t.0) }.unwrap_or_default()),
+                };
+                if cwire.as_ref().ok() != Some(&cwant) {
+                    viol(&report, "header-walk", "client-header-bytes", key, json!({"header_index": i, "size": csize, "opcode": cop}), format!("client header #{i} goes out as {:?}, the keystream over the documented layout gives {}", cwire.map(|w| hex(&w)), hex(&cwant)));
+                    return;
+                }
+                let cgot = mc::util::catch(|| match i % 3 {
+                    0 => { let h = sd.decrypt_client_header([cwant[0], cwant[1], cwant[2], cwant[3], cwant[4], cwant[5]]); Some((h.size, h.opcode)) }
+                    1 => sd.read_and_decrypt_client_header(Cursor::new(&cwant[..])).ok().map(|h| (h.size, h.opcode)),
+                    _ => sd.read_and_decrypt_client_header(OneByOne(&cwant[..], 0)).ok().map(|h| (h.size, h.opcode)),
+                });
+                if cgot != Ok(Some((csize, cop))) {
+                    viol(&report, "header-walk", "client-header-decode", key, json!({"header_index": i, "size": csize, "opcode": cop, "entry_point": i % 3}), format!("client header #{i} decodes as {cgot:?}"));
+                    return;
+                }
+                walked.fetch_add(2, Ordering::Relaxed);
+            }
+        });
+        report.count("headers_walked_through_all_entry_points", walked.load(Ordering::Relaxed));
+        report.require("headers_walked_through_all_entry_points");
+    }
     report.finish()
 }
